@@ -77,3 +77,6 @@ func (s *ServerDnsListener) VerifOccupied() (live []int, retired []int) {
 	}
 	return
 }
+
+// VerifAcceptBacklog is the number of new sessions waiting to be handed out by Accept().
+func (s *ServerDnsListener) VerifAcceptBacklog() int { return len(s.accept) }
